@@ -1,6 +1,7 @@
 package main
 
 import (
+	"os"
 	"fmt"
 	"go/constant"
 	"go/token"
@@ -356,7 +357,9 @@ func (vf *VFlow) walk(v ssa.Value, fl uint8, out LabelSet, seen map[string]bool,
 		}
 		// call-site sensitivity: inside the evaluation of a call's result, the callee's parameters are
 		// the arguments of that very call
-		if n := len(vf.ctx); n > 0 {
+		// (a label that names an object of an enclosing frame - the spilled receiver of the caller - is resolved after
+		// the walk into the callee has come back: the frame that called fn is then further down the stack)
+		for n := len(vf.ctx); n > 0; n-- {
 			top := vf.ctx[n-1]
 			for _, tg := range vf.targets(top) {
 				if tg == fn {
@@ -370,6 +373,13 @@ func (vf *VFlow) walk(v ssa.Value, fl uint8, out LabelSet, seen map[string]bool,
 					return
 				}
 			}
+		}
+		if os.Getenv("VFDEBUG") != "" {
+			top := "-"
+			if n := len(vf.ctx); n > 0 {
+				top = vf.cx.W.InstrPos(vf.ctx[n-1])
+			}
+			fmt.Fprintf(os.Stderr, "VFDEBUG ctx lost at param %s of %s (ctx depth %d top %s)\n", x.Name(), fn.String(), len(vf.ctx), top)
 		}
 		for _, c := range cs {
 			args := callArgs(c)
@@ -909,7 +919,7 @@ func (vf *VFlow) loadField(base LabelSet, fv *types.Var, fl uint8, out LabelSet,
 // sub-path such as ".Assertion"): the stores made to that field through pointers that
 // may denote the same object, plus whole-object copies into it.
 func (vf *VFlow) loadAllocField(l string, fv *types.Var, fl uint8, out LabelSet, seen map[string]bool, depth int) {
-	k := "F|" + l + "|" + fname(fv) + fmt.Sprintf("|%d", fl)
+	k := "F|" + l + "|" + fname(fv) + fmt.Sprintf("|%d|", fl) + vf.ctxKey()
 	if seen[k] {
 		return
 	}
